@@ -185,7 +185,7 @@ def run(tier: str) -> int:
         jobs_tlc = [("Recursion", rec, dict(workers=1, timeout=3000)), ("Recursion", live, dict(workers=4, timeout=900))]
         for nm, (alpha, extra) in c21.ALPHABETS.items():
             jobs_tlc.append(("BlockParser", gen_cfg("cfg/BlockParser.tmpl", dict(Alphabet=alpha, MaxLen=L, NestLimit=c21.NEST if nm != "extra" else 8,
-                                                                                  Extra="INVARIANT Emit"), "t" + nm), dict(workers=1, timeout=3000)))
+                                                                                  Extra="INVARIANT Emit"), "t" + nm), dict(workers=1, timeout=3000, extra=["-maxSetSize", "4000000"])))
             names.append(nm)
         results = run_many(jobs_tlc, parallel=7)
     finally:
